@@ -10,10 +10,10 @@ TRUST = ("Trusted: the harness's executable reference models; imbl, tokio::sync:
 
 CHECKS = {
  # id: (engine, category, text, technique, design_ref)
- "C01": ("obs", "exploration", "Runtime monitor: call histories on the real Observable/SharedObservable (incl. write guards, read guards, clones, into_shared) are compared call by call with a version-counter model; payload type whose hash ignores one field separates equality from hash; exhaustive d<=4 (quick) / d<=5 (thorough) over a ~35-operation state-dependent alphabet for both observable kinds, random histories of 60-300 calls with <=5 subscribers.", "runtime monitoring: history + executable reference model", "5/C01"),
+ "C01": ("obs", "exploration", "Runtime monitor: call histories on the real Observable/SharedObservable (incl. write guards, read guards, clones, into_shared) are compared call by call with a version-counter model; payload type whose hash ignores one field separates equality from hash; exhaustive d<=4 (quick) / d<=5 (thorough) over a ~35-operation state-dependent alphabet for both observable kinds, random histories of 60-300 calls with <=5 subscribers, on both lock flavours; overlapping calls of the async-lock flavour (a subscriber's next()/next_ref() and a writer queued behind a held guard) through guard scripts.", "runtime monitoring: history + executable reference model", "5/C01"),
  "C02": ("obs+thr", "exploration", "Three monitors: (a) after every single operation of a sequential history every Pending subscriber's waker must have been woken if an update/close happened since (exhaustive d<=6 / 7, random); (b) director-forced schedules at the __verif pause points and at the clone of the supplied waker, 7 scenarios, all orders, verdict at join from poll results and wake flags; (c) free-running writer/subscriber threads with hook-injected yields and a timing-free quiescence oracle. The thread parts also run under ThreadSanitizer (thorough) and Miri (thorough).", "runtime monitoring: wake-obligation invariant + forced schedules + stress with quiescence oracle; TSan/Miri", "5/C02"),
  "C03": ("obs+thr", "exploration", "(a) owner-count model over clone/drop/downgrade/upgrade/into_shared/subscribe/poll histories (exhaustive d<=6 / 7, random); (b) director scenarios: two/three threads dropping the last clones, last drop || upgrade, drop || upgrade || poll - every order at sdrop:enter/decided, upgrade:between, close:*, poll:*; verdict at join: subscribers ended iff no handle left; (c) free-running rounds. Thread parts also under TSan/Miri in the thorough tier.", "runtime monitoring: reference model + forced schedules at the decision/release window", "5/C03"),
- "C04": ("thr", "exploration", "Offline checkers over recorded histories of 2-4 real threads: unique-valued register (exact order reconstructed from returned predecessors; real-time order; stale/early reads), contended conditional setters (never store an equal value; conservation of previous values), append-only list (no lost closure, prefix reads within completed/invoked bounds, subscribers monotone and handed the final value), guard exclusion; plus the value-lock exclusion invariant evaluated by the director in every forced schedule. Thorough tier repeats the workloads under ThreadSanitizer and Miri (many seeds).", "runtime monitoring: linearizability checking of recorded histories (unique values / append-only list), lock-exclusion invariant; TSan/Miri", "5/C04"),
+ "C04": ("thr", "exploration", "Offline checkers over recorded histories of 2-4 real threads: unique-valued register (exact order reconstructed from returned predecessors; real-time order; stale/early reads), contended conditional setters (never store an equal value; conservation of previous values), append-only list (no lost closure, prefix reads within completed/invoked bounds, subscribers monotone and handed the final value), guard exclusion; guard scenarios and the value-lock exclusion invariant under the director in every forced schedule; the register workload also on the async-lock flavour. Thorough tier repeats the workloads under ThreadSanitizer and Miri (many seeds).", "runtime monitoring: linearizability checking of recorded histories (unique values / append-only list), lock-exclusion invariant; TSan/Miri", "5/C04"),
  "C16": ("obs+thr", "exploration", "Differential: every C01/C02a/C03a history also runs on the async-lock flavour with a hand-rolled executor, judged by the same model and compared call by call with the sync run; randomised guard scripts (write guard held across subscriber polls, read guard held while writers wait: waiting writer woken on release, subscriber ready after the guard is dropped, lock free afterwards); multi-thread register workload on the async SharedObservable with park/unpark executors and the C04 checker.", "runtime monitoring: differential execution against the sync flavour + scripted guard oracles + recorded-history checker", "5/C16"),
  "C18": ("misc", "exploration", "Exhaustive small-scope execution: vectors of length 0..4 (6 thorough) x all eleven diff kinds x all indices/lengths 0..len+1 x payload sizes 0..3 x four mappings; apply compared with a Vec model, panics caught and compared with the documented condition, map/apply commutation and identity mapping checked; random vectors up to length 200.", "runtime monitoring: exhaustive execution against an executable model", "5/C18"),
  "C19": ("obs", "exploration", "Integer-counter model: after every single operation of clone/subscribe/subscriber-clone/downgrade/upgrade/weak-clone/into_shared/drop histories all four counts of every live handle are compared, for both lock flavours; exhaustive d<=6 (quick) / d<=7 (thorough), random beyond.", "runtime monitoring: invariant (counts == model) at every quiescent point", "5/C19"),
@@ -22,14 +22,14 @@ CHECKS = {
  "C06": ("vec+thr", "exploration", "Runtime monitor with an undelivered-message counter per subscriber: Reset only beyond capacity, Reset carries the current contents, replica == contents at every Pending, every diff applicable, each batched item brings the replica up to date; capacities 1,2,3,5,6,16,1000; exhaustive over a 7-step alphabet for capacities 1-3. A run that delivered no Reset is INCONCLUSIVE. Lag that begins while a subscriber is inside poll_next is only reachable across threads: a cross-thread variant (writer thread, each stream on its own park/unpark thread, also under TSan) checks replica == contents at the quiescent Pending after the writer finished and at the end.", "runtime monitoring: history + reference model with lag accounting; cross-thread rounds with a quiescence oracle; TSan", "5/C06"),
  "C07": ("vec", "fault_enumeration", "Every transaction body (closed under prefixes = every abandon point) x every way of ending it (commit, drop, rollback+drop, rollback+more+commit/drop) is executed on the real code, with 0/1/3 subscribers and capacities 1,2,16; contents, handle view, published messages and wakers are compared with the model after every step.", "runtime monitoring: fault (abandon-point) enumeration against a plain-Vec model", "5/C07"),
  "C08": ("vec", "exploration", "Histories end with the drop of the vector and a drain of every stream: pending items first, then None, replica == final contents, further polls stay None, pending wakers woken by the drop; six subscriber situations x capacities x both flavours enumerated, random beyond.", "runtime monitoring: drain-after-drop oracle over executed histories", "5/C08"),
- "C09": ("adp", "exploration", "Adapter engine with taps: at every Pending of the adapter the view rebuilt from initial values + diffs must be the first/last/remaining items of the real vector for the latest announced parameter; checked replica for applicability; end-of-stream compared with the source. Exhaustive d<=2 (quick) / d<=3 (thorough) over all diff kinds, indices, parameters 0..5, three construction forms, both flavours; random beyond.", "runtime monitoring: view oracle at quiescent points over tapped streams", "5/C09"),
- "C10": ("adp", "exploration", "As C09 for Filter/FilterMap with all 16 pass/fail assignments over value classes; Resets to all-rejected/all-kept/mixed contents arise from capacity-1 lazy histories.", "runtime monitoring: view oracle at quiescent points", "5/C10"),
+ "C09": ("adp", "exploration", "Adapter engine with taps: at every Pending of the adapter the view rebuilt from initial values + diffs must be the first/last/remaining items of the real vector for the latest announced parameter; checked replica for applicability; end-of-stream compared with the source. Exhaustive d<=2 (quick) / d<=3 (thorough) over all diff kinds, indices, parameters 0..5, three construction forms, both flavours; random beyond, including vectors and limits beyond one imbl chunk (64).", "runtime monitoring: view oracle at quiescent points over tapped streams", "5/C09"),
+ "C10": ("adp", "exploration", "As C09 for Filter/FilterMap with all 16 pass/fail assignments over value classes; Resets to all-rejected/all-kept/mixed contents arise from capacity-1 lazy histories; random histories include views of dozens of items over sources beyond one imbl chunk.", "runtime monitoring: view oracle at quiescent points", "5/C10"),
  "C11": ("adp", "exploration", "As C09 for Sort/SortBy/SortByKey; oracle = same multiset and ordered under the comparison (tie order free); values with ties.", "runtime monitoring: permutation+order oracle at quiescent points", "5/C11"),
  "C12": ("adp", "exploration", "Chains of 2-3 boxed stages with a tap below each; every stage's replica must be that stage's view of the replica below, from the initial values on; all pairs over a grid of 96 stage variants (incl. into_parts forms) exhaustively for d<=1 (quick) / d<=2 (thorough), random 2-3 stage chains beyond; bottom-up attribution.", "runtime monitoring: per-stage view oracle through transparent taps", "5/C12"),
  "C13": ("adp", "exploration", "Batched subscriber, transaction-rich histories: after every batch at every tap the replica must be the stage's view of a batch-boundary state of its input (source: a state between top-level operations), no empty batch, and batched-flattened == unbatched diffs for fixed-parameter chains when neither lagged.", "runtime monitoring: boundary-state oracle + flavour differential", "5/C13"),
  "C14": ("adp", "exploration", "Fresh flag waker per poll; a Ready poll after a Pending poll requires that Pending poll's waker to have been woken; evaluated after every single operation and lazily, for the plain stream, every adapter and random chains, with source updates, limit changes, limit-stream end and drop as inputs.", "runtime monitoring: wake-implication invariant on every poll", "5/C14"),
  "C15": ("adp", "exploration", "Fixed-limit head/tail, alone and inside random chains: len(view) <= limit after every single emitted diff (inside batches too) and for the initial values; exhaustive d<=3 (quick) / d<=4 (thorough).", "runtime monitoring: invariant checked after every diff", "5/C15"),
- "C17": ("vec", "exploration", "Every mutator with every index 0..len+2 directly and in transactions, all traversal decision sequences over {keep,set,remove,set-then-remove,stop} for lengths <=5 (quick) / <=6 (thorough): return values, contents, panics (catch_unwind), notifications and visiting order compared with a plain Vec model.", "runtime monitoring: differential against a plain-Vec model", "5/C17"),
+ "C17": ("vec", "exploration", "Every mutator with every index 0..len+2 directly and in transactions, all traversal decision sequences over {keep,set,remove,set-then-remove,stop} for lengths <=5 (quick) / <=6 (thorough): return values, contents, panics (catch_unwind), notifications and visiting order compared with a plain Vec model; vectors beyond one imbl chunk; transactions during which every receiver goes away (all bodies of length <=5 over a 6-operation alphabet).", "runtime monitoring: differential against a plain-Vec model", "5/C17"),
 }
 
 checks = []
